@@ -24,7 +24,7 @@ import multiprocessing
 import re
 import xml.dom
 
-ENC8 = ['utf-8', 'iso-8859-1', 'koi8-r', 'cp1251']
+ENC8 = ['utf-8', 'iso-8859-1', 'koi8-r', 'iso8859_5']  # (one label with an underscore: legal encoding names are not only alphanumerics and hyphens)
 PAYLOAD = b'\xd0\xb6'
 TEXT_PAYLOAD = '\u0436'
 DECODED = {e: PAYLOAD.decode(e) for e in ENC8}
@@ -262,7 +262,7 @@ def imports_matrix(ctx):
     ctx.bounded.append({'name': 'C08 one import: precedence matrix', 'evaluations': n, 'distinct_nontrivial': len(kinds), 'exhaustive': True,
                         'rule': '(override given/not) x (transport charset given/not) x (content with UTF-8 BOM / @charset / neither) x (parent @charset known/not) x (content bytes/text) x '
                                 '(fetcher result data / None / (None, None) / (charset, None)) x for data: (what follows the signature: two style rules with the payload / NOTHING - empty bytes or '
-                                'text are data, not a missing answer / a comment only; a BOM read as 8-bit text is only tried with rules behind it), every injective assignment of utf-8, iso-8859-1, koi8-r, cp1251 to the slots present; '
+                                'text are data, not a missing answer / a comment only; a BOM read as 8-bit text is only tried with rules behind it), every injective assignment of utf-8, iso-8859-1, koi8-r, iso8859_5 to the slots present; '
                                 'CSSParser(fetcher=recording).parseString(top, encoding=override, href=...); observed: importRule.styleSheet.encoding, decoded payload D0 B6, @charset mirror, cssText '
                                 'decodable, URL asked; distinct = matrix cell',
                         'samples': samples, 'bound': 'one import below a parseString sheet'})
